@@ -61,7 +61,9 @@ func (s *Sim) oracleOnHandOver(c *Client, rid string, f *Frame, r *CReq) {
 	// C09.b: served only under a subscription
 	if held := c.Cache[rid]; held != nil && held.Kind != 'e' {
 		if res, v := s.W.lookup(c.expandCID(rid)); res != nil && v != nil && !v.Deleted {
-			if !s.tr.isSubscribed("event." + name) {
+			// (a frame is composed some time before the client reads it: what counts
+			// is that the subscription existed at some moment since the request)
+			if !s.tr.subscribedSince("event."+name, r.Seq) {
 				s.violate("C09", "b", "served-unsubscribed", "client %s was handed %s while event.%s is not subscribed", c.Name, rid, name)
 			}
 		}
@@ -190,7 +192,7 @@ func (s *Sim) stepInvariants() {
 	for _, ev := range log[from:] {
 		if (ev.Kind == "req" || ev.Kind == "dlv") && ev.Req != nil && ev.Req.Name != "" && ev.Req.Type != "query" {
 			s.mu.Lock()
-			skip := ev.Req.Type == "get" && !s.initialGet(ev.Req)
+			skip := ev.Req.Type == "get" && ev.Req.Rf != 0
 			s.mu.Unlock()
 			if !skip {
 				s.lastUse[ev.Req.Name] = time.Duration(ev.Time)
@@ -216,7 +218,7 @@ func (s *Sim) namesRequested() map[string]string {
 	s.mu.Lock()
 	for _, r := range s.tr.reqs {
 		if !r.Delivered && r.Name != "" && r.Type != "query" {
-			if r.Type == "get" && !s.initialGet(r) {
+			if r.Type == "get" && r.Rf != 0 {
 				continue // a reset re-fetch holds no use count (see F-23)
 			}
 			use[r.Name] = "request " + r.ID + " is pending"
